@@ -74,7 +74,8 @@ def run_one(seed, preset=None, tier="quick", want_case=False):
     case = gen_case(tape, doc_knobs={"max_ops": 2})
     cfg = pick_engine_cfg(cfgt)
     # lists beyond 4096 items are expensive (every fault execution repeats them): all thorough runs, a third of the quick ones
-    plan_knobs = {"long_list_pct": 3, "mid_list_pct": 4, "huge_list": tier != "quick" or seed % 3 == 0}
+    plan_knobs = {"long_list_pct": 3, "mid_list_pct": 4, "huge_list": tier != "quick" or seed % 3 == 0,
+                  "huge_list_crc": seed % 40 == 0}
     base = make_plan(case, tape, knobs=plan_knobs)
     r = base_result(tape)
     r["case_digest"] = case.digest()
@@ -151,7 +152,7 @@ def run_one(seed, preset=None, tier="quick", want_case=False):
                 faults_fired[k] = faults_fired.get(k, 0) + n
             for k, n in layout_probe(plan, None).items():
                 probes[k] = probes.get(k, 0) + n
-            for k in ("list_longer_than_256", "scalar_serialises_to_null", "falsy_parent_object"):
+            for k in ("list_longer_than_256", "list_longer_than_4096", "scalar_serialises_to_null", "falsy_parent_object"):
                 if plan.probes.get(k):
                     probes[k] = probes.get(k, 0) + 1
             if plan.errors:
